@@ -30,7 +30,9 @@ TStep ==
        THEN st' = StInit /\ l' = l + 1 /\ UNCHANGED <<failed, done>>
        ELSE LET r == Step(st, ev) IN
             IF r.ok
-            THEN st' = r.st /\ l' = l + 1 /\ UNCHANGED <<failed, done>>
+            THEN /\ st' = r.st /\ l' = l + 1 /\ UNCHANGED done
+                 /\ failed' = IF "drop" \in DOMAIN r /\ r.drop     \* accepted vacuously (outside the modelled domain): counted
+                              THEN failed \cup {[line |-> l, msg |-> "DROP"]} ELSE failed
             ELSE /\ failed' = failed \cup {[line |-> l, msg |-> r.msg]}
                  /\ l' = NextReset(l + 1)
                  /\ st' = StInit
